@@ -179,6 +179,11 @@ impl<T: ?Sized> RwLock<T> {
     }
 
     fn read_unlock(&self) {
+        // this runs in the drop of a read guard and must not be a cancellation point:
+        // a Cancel panic out of the contended `rlock.lock()` would skip the count
+        // decrement and leave the rwlock read locked for ever. a pending cancel is
+        // delivered at the next cancellation point of the coroutine
+        let _g = crate::cancel::CancelDisableGuard::new();
         let mut r = self.rlock.lock().expect("rwlock read_unlock");
         *r -= 1;
         if *r == 0 {
